@@ -20,6 +20,10 @@
                                                   -> ok | bad   (closed store only: somebody else overwrites bytes of a file — legacy
                                                      records, damaged data; outside `step`, so every specification entry is tainted:
                                                      no claim is made afterwards, only model = implementation is compared)
+    stash <i>                                     -> ok | bad   (closed store only: somebody moves data file <i> from the main directory
+                                                     into oldat/ — what `removeDatFile` with backup does, but to ANY file, e.g. the
+                                                     current one; outside `step`; the specification is NOT tainted: `fileOf` still
+                                                     resolves the number, and LoadBlockIndex must bring the current file back)
     senc <bytes>                                  -> ok <bytes>
     sdec <bytes>                                  -> ok <bytes> | err
 -/
@@ -153,6 +157,14 @@ def stepLine (st : OSt) (toks : List String) : OSt × String :=
                    sp := { st.sp with m := st.sp.m.map (fun (k, e) => (k, { e with tainted := true })) } }, "ok")
       | _, _ => (st, "bad")
     | _, _, _ => (st, "bad-op")
+  | ["stash", i] =>
+    match i.toNat? with
+    | some i =>
+      match st.s.isOpen, AL.get st.s.fs.dats i, AL.get st.s.fs.olds i with
+      | false, some f, none =>
+        ({ st with s := { st.s with fs := { st.s.fs with dats := AL.del st.s.fs.dats i, olds := AL.set st.s.fs.olds i f } } }, "ok")
+      | _, _, _ => (st, "bad")
+    | none => (st, "bad-op")
   | ["lost"] => (st, " ".intercalate ("lost" :: ((st.s.fs.lost.eraseDups.toArray.qsort (· < ·)).toList.map toString)))
   | _ =>
     match parseOp toks with
